@@ -14,40 +14,10 @@
     chunk_invariant, records_wellformed, torn_only_after_fault, acked_durable, acked_never_lost,
     failed_batch_rewritten, reuse_recovers, recovery_separator_first
 -/
-import EmitModel.Lemmas.FileSetAcked
+import EmitModel.Lemmas.FileSetRun
 
 namespace EmitModel.C10
 open EmitModel.FileSet
-
-/-- One thing that happens to the worker: a batch arrives (at a clock reading, with the id the rng would give if
-    a file is created), or the worker is dropped and constructed again. -/
-inductive Op where
-  | batch (now : Parts) (id : Nat) (b : Batch)
-  | restart
-
-def Op.events : Op → List (List Nat)
-  | .batch _ _ b => b.rest
-  | .restart => []
-
-def runOp (cfg : Config) (plan : Nat → Fault) (s : St) : Op → St
-  | .batch now id b => (onBatch cfg plan now id b s).2
-  | .restart => restart s
-
-/-- The state after a history. -/
-def run (cfg : Config) (plan : Nat → Fault) (s : St) (ops : List Op) : St := ops.foldl (runOp cfg plan) s
-
-/-- The empty directory, before the first batch. -/
-def emptyState : St := { fs := [], op := 0, active := none, log := [], faulted := false }
-
-theorem inv_emptyState (cfg : Config) (E : List Nat → Prop) (c : Nat) : Inv cfg E c emptyState :=
-  ⟨by simp [NamesNodup, names, emptyState], fun n f h => by simp [emptyState, fsGet] at h,
-    fun a h => by simp [emptyState] at h⟩
-
-theorem runOp_inv {cfg : Config} {E : List Nat → Prop} {c : Nat} (hsep : cfg.sep = [c]) (plan : Nat → Fault)
-    {s : St} (op : Op) (hE : ∀ e ∈ op.events, E e) (hinv : Inv cfg E c s) : Inv cfg E c (runOp cfg plan s op) := by
-  cases op with
-  | batch now id b => exact onBatch_inv (.inl hsep) plan now id b s hE hinv
-  | restart => exact ⟨hinv.nodup, hinv.good, fun a h => by simp [runOp, restart] at h⟩
 
 /-- **Chunk invariant** (DESIGN A.3). For every configuration with a one-byte separator, every fault plan and
     every history from a state satisfying the invariant (e.g. the empty directory): names stay unique, every
@@ -56,12 +26,8 @@ theorem runOp_inv {cfg : Config} {E : List Nat → Prop} {c : Nat} (hsep : cfg.s
     on a record boundary. -/
 theorem chunk_invariant {cfg : Config} {E : List Nat → Prop} {c : Nat} (hsep : cfg.sep = [c])
     (plan : Nat → Fault) (ops : List Op) :
-    ∀ (s : St), Inv cfg E c s → (∀ op ∈ ops, ∀ e ∈ op.events, E e) → Inv cfg E c (run cfg plan s ops) := by
-  induction ops with
-  | nil => intro s h _; exact h
-  | cons op ops ih =>
-    intro s h hE
-    exact ih _ (runOp_inv hsep plan op (hE op (by simp)) h) (fun o ho => hE o (by simp [ho]))
+    ∀ (s : St), Inv cfg E c s → (∀ op ∈ ops, ∀ e ∈ op.events, E e) → Inv cfg E c (run cfg plan s ops) :=
+  run_inv (.inl hsep) plan ops
 
 /-- **No record is ever mangled.** In every state reachable under any fault plan, every separator-delimited
     record of every file of the set is empty, a complete submitted event, or a non-empty strict prefix of one
@@ -105,14 +71,14 @@ theorem acked_durable {cfg : Config} {E : List Nat → Prop} {c : Nat} (hsep : c
     (hE : ∀ e ∈ b.rest, E e) (h : onBatch cfg plan now id b s = (.ok, s')) :
     ∃ a f, s'.active = some a ∧ isMember cfg.pfx cfg.ext a.name = true ∧ fsGet s'.fs a.name = some f ∧
       f.durable = true ∧ f.unsynced = [] ∧ ∀ e ∈ b.rest, Occurs c e f.synced := by
-  obtain ⟨a1, _, a3⟩ := acquire_spec (cfg := cfg) (E := E) (c := c) plan now id b s hinv.active
+  obtain ⟨a1, _, a3⟩ := acquire_spec (cfg := cfg) (E := E) (c := c) (N := fun _ => True) plan now id b s trivial hinv.active
   unfold onBatch at h
   cases hacq : acquire cfg plan now id b s with
   | err s1 => simp only [hacq] at h; cases h
   | crash s1 => simp only [hacq] at h; cases h
   | ok a s1 =>
     simp only [hacq, R.st] at h a1
-    obtain ⟨hm, ⟨f1, hget1, hd1⟩, hclean1⟩ := a3 a s1 hacq
+    obtain ⟨hm, ⟨f1, hget1, hd1, _⟩, hclean1⟩ := a3 a s1 hacq
     have hgood1 := a1.goodInv hinv.nodup hinv.good
     generalize hw : writeEvents cfg plan a b s1 b.rest = w at h
     obtain ⟨res, oa, s2⟩ := w
@@ -152,17 +118,17 @@ theorem acked_durable {cfg : Config} {E : List Nat → Prop} {c : Nat} (hsep : c
     the worker's retention deleted them. -/
 theorem run_rel {cfg : Config} {E : List Nat → Prop} {c : Nat} (hsep : cfg.sep = [c]) (plan : Nat → Fault)
     (ops : List Op) : ∀ (s : St), Inv cfg E c s → (∀ op ∈ ops, ∀ e ∈ op.events, E e) →
-      Rel cfg s (run cfg plan s ops) := by
+      Rel cfg (fun _ => True) s (run cfg plan s ops) := by
   induction ops with
-  | nil => intro s _ _; exact Rel.refl cfg s
+  | nil => intro s _ _; exact Rel.refl cfg _ s
   | cons op ops ih =>
     intro s h hE
-    have h1 : Rel cfg s (runOp cfg plan s op) := by
+    have h1 : Rel cfg (fun _ => True) s (runOp cfg plan s op) := by
       cases op with
       | batch now id b =>
-        exact (onBatch_spec (.inl hsep) plan now id b s (hE (.batch now id b) (by simp)) h).1.rel h.nodup
-      | restart => exact Rel.of_same_fs [] (by simp [runOp, restart]) (by simp) rfl
-    exact h1.trans (ih _ (runOp_inv hsep plan op (hE op (by simp)) h) (fun o ho => hE o (by simp [ho])))
+        exact (onBatch_spec (N := fun _ => True) (.inl hsep) plan now id b s trivial (hE (.batch now id b) (by simp)) h).1.rel h.nodup
+      | restart => exact Rel.of_same_fs [] (by simp [runOp, restart]) (by simp) (by simp) rfl
+    exact h1.trans (ih _ (runOp_inv (.inl hsep) plan op (hE op (by simp)) h) (fun o ho => hE o (by simp [ho])))
 
 /-- **No later step loses an acknowledged event.** After an Ok batch, whatever happens next (more batches,
     restarts, failures, crashes — any fault plan), every event of the batch still occurs complete in the synced
@@ -180,7 +146,7 @@ theorem acked_never_lost {cfg : Config} {E : List Nat → Prop} {c : Nat} (hsep 
   have hinv' : Inv cfg E c s' := by
     have := onBatch_inv (.inl hsep) plan now id b s hE hinv
     rw [h] at this; exact this
-  obtain ⟨⟨extra, hlog, _, hdur⟩, _⟩ := run_rel hsep plan ops s' hinv' hE'
+  obtain ⟨⟨extra, hlog, _, _, hdur⟩, _⟩ := run_rel hsep plan ops s' hinv' hE'
   refine ⟨a, ha, ?_⟩
   rcases hdur a.name f hget hd with hdel | ⟨f', hget', hd', hpre⟩
   · left; rw [hlog]; simpa using hdel
@@ -202,7 +168,7 @@ theorem failed_batch_rewritten {cfg : Config} {E : List Nat → Prop} {c : Nat} 
         b.rest = pre ++ e :: post ∧ b'.rest = e :: post ∧
         writeEvents cfg plan a0 b s0 pre = (.ok, some a1, s1) ∧ writeEvent cfg plan a1 e s1 = .err s') := by
   constructor
-  · have := (onBatch_spec (.inl hsep) plan now id b s hE hinv).2
+  · have := (onBatch_spec (N := fun _ => True) (.inl hsep) plan now id b s trivial hE hinv).2
     rw [h] at this
     cases hs : s'.active with
     | none => rfl
@@ -210,16 +176,16 @@ theorem failed_batch_rewritten {cfg : Config} {E : List Nat → Prop} {c : Nat} 
       -- an active file is only ever installed on the Ok path
       exfalso
       unfold onBatch at h
-      obtain ⟨_, a2, _⟩ := acquire_spec (cfg := cfg) (E := E) (c := c) plan now id b s hinv.active
+      obtain ⟨_, a2, _⟩ := acquire_spec (cfg := cfg) (E := E) (c := c) (N := fun _ => True) plan now id b s trivial hinv.active
       cases hacq : acquire cfg plan now id b s with
       | err s1 => simp only [hacq, R.st] at h a2; cases h; rw [a2] at hs; cases hs
       | crash s1 => simp only [hacq] at h; cases h
       | ok a0 s1 =>
         simp only [hacq, R.st] at h a2
-        obtain ⟨a1, _, _⟩ := acquire_spec (cfg := cfg) (E := E) (c := c) plan now id b s hinv.active
+        obtain ⟨a1, _, _⟩ := acquire_spec (cfg := cfg) (E := E) (c := c) (N := fun _ => True) plan now id b s trivial hinv.active
         simp only [hacq, R.st] at a1
-        have hok := (acquire_spec (cfg := cfg) (E := E) (c := c) plan now id b s hinv.active).2.2 a0 s1 hacq
-        obtain ⟨_, w2, _⟩ := writeEvents_spec (.inl hsep) plan b.rest a0 b s1 hE (a1.nodup hinv.nodup)
+        have hok := (acquire_spec (cfg := cfg) (E := E) (c := c) (N := fun _ => True) plan now id b s trivial hinv.active).2.2 a0 s1 hacq
+        obtain ⟨_, w2, _⟩ := writeEvents_spec (N := fun _ => True) (.inl hsep) plan b.rest a0 b s1 hE (a1.nodup hinv.nodup)
           (a1.goodInv hinv.nodup hinv.good) hok
         have w2' := w2 a2
         generalize hw : writeEvents cfg plan a0 b s1 b.rest = w at h w2'
@@ -279,7 +245,7 @@ theorem recovery_separator_first (cfg : Config) (plan : Nat → Fault) (a a' : A
     (h : writeEvent cfg plan a e s = .ok a' s') :
     s'.fs = appendBytes s.fs a.name ((if a.needsRecovery then cfg.sep else []) ++ e) ∧ a'.needsRecovery = false ∧
       a'.name = a.name := by
-  obtain ⟨h1, _, _, h4, h5, _⟩ := writeEvent_ok h
+  obtain ⟨h1, _, _, h4, h5, _, _⟩ := writeEvent_ok h
   exact ⟨h1, h5, h4⟩
 
 /-! ### the hypotheses are satisfiable -/
